@@ -5,7 +5,9 @@
    Transcribed (tensordict/_td.py:1486-1574):
      TensorDict._add_batch_dim(in_dim, vmap_level)      -> [td_add_c]     every leaf: torch _add_batch_dim(leaf, in_dim, level)
                                                                          batch size / names: entry in_dim dropped
-     TensorDict._maybe_remove_batch_dim(.., B, out_dim) -> [td_remove_c]  every leaf FIRST: torch _remove_batch_dim(leaf, level, B,
+     TensorDict._maybe_remove_batch_dim(.., B, out_dim) -> [td_remove_c]  out_dim is wrapped ONCE against the rank of the result
+                                                                         (IndexError outside; repair of D190 / D191), then
+                                                                         [td_remove_raw]: every leaf: torch _remove_batch_dim(leaf, level, B,
                                                                          out_dim) (torch wraps out_dim against the LEAF rank + 1,
                                                                          IndexError outside), THEN batch size / names:
                                                                          list.insert(out_dim, B / None) (python semantics), THEN
@@ -110,7 +112,7 @@ Fixpoint all_some {A} (l : list (option A)) : option (list A) :=
   | None :: _ => None
   end.
 
-Definition td_remove_c (bt : btdict) (o : Z) : res tdict :=
+Definition td_remove_raw (bt : btdict) (o : Z) : res tdict :=
   match all_some (map (leaf_new_shape bt o) (bschema bt)) with
   | None => Raise IndexErr                                        (* torch, on the first leaf it refuses *)
   | Some shapes =>
@@ -124,6 +126,12 @@ Definition td_remove_c (bt : btdict) (o : Z) : res tdict :=
                                    | None => bval bt k 0 I
                                    end |}
       else Raise RuntimeErr                                       (* TensorDict(...): batch size vs leaf shape *)
+  end.
+
+Definition td_remove_c (bt : btdict) (o : Z) : res tdict :=
+  match torch_wrap o (length (bbs bt) + 1) with
+  | None => Raise IndexErr                                        (* _maybe_correct_neg_dim *)
+  | Some p => td_remove_raw bt (Z.of_nat p)
   end.
 
 (* torch.vmap(f, in_dims = d, out_dims = o)(td), d already normalised by _process_batched_inputs *)
@@ -152,6 +160,7 @@ Arguments sample {V} bt j.
 Arguments lift {V} f bt.
 Arguments leaf_pos {V} bt o k.
 Arguments leaf_new_shape {V} bt o kf.
+Arguments td_remove_raw {V} bt o.
 Arguments td_remove_c {V} bt o.
 Arguments vmap1 {V} f d o td.
 Arguments vmap1_total {V} f d o td.
